@@ -76,6 +76,27 @@ func (c *Ctx) add(o Obligation) {
 	c.Obls = append(c.Obls, o)
 }
 
+// trial runs f and keeps the obligations it adds only if all of them hold; otherwise they are withdrawn
+// (the caller then decides the same question by another method). It reports whether they were kept.
+func (c *Ctx) trial(f func()) bool {
+	n := len(c.Obls)
+	f()
+	ok := true
+	for _, o := range c.Obls[n:] {
+		if o.Status != OK {
+			ok = false
+		}
+	}
+	if ok {
+		return true
+	}
+	for _, o := range c.Obls[n:] {
+		delete(c.seen, o.Key())
+	}
+	c.Obls = c.Obls[:n]
+	return false
+}
+
 func rank(s Status) int {
 	switch s {
 	case OK:
